@@ -428,6 +428,20 @@ Definition rule_flags (fixed : bool) (p : rprim) (args : list mvalue) (out : val
           let su := f_up (mv_f b) in let sd := f_down (mv_f b) in
           Some (FL false (iu && su || id && sd) (iu && sd || id && su))
       | _ => None end
+  (* Value::keep (dyadic/mod.rs:574-592).  [a] = counts, [b] = kept array.  A scalar natural
+     count repeats every row (keep_scalar_integer, mod.rs:667-716): the metadata stays (a byte
+     array is converted to numbers WITH its metadata).  A list of counts (keep_list,
+     mod.rs:781-850) takes the sortedness marks and or-s them back; the value marks stay,
+     except for a scalar kept array, which is rebuilt from its one element. *)
+  | RKeep =>
+      if is_scalar (mv_v a) then Some (mv_f b)
+      else if is_scalar (mv_v b) then Some (sorted_part (mv_f b))
+      else Some (mv_f b)
+  (* Value::rotate_depth (dyadic/mod.rs:1159-1189, 1335-1345): nothing happens for an amount
+     without rows; otherwise the sortedness marks are cleared, the value marks stay *)
+  | RRotate =>
+      if match shape_of (mv_v a) with O :: _ => true | _ => false end then Some (mv_f b)
+      else Some (clear_sorted (mv_f b))
   | _ => None
   end.
 
@@ -436,7 +450,31 @@ Definition rule_flags (fixed : bool) (p : rprim) (args : list mvalue) (out : val
 Definition same_value (a b : value) : bool := same_ctor a b && value_eq true a b.
 Definition mv_same (a b : mvalue) : bool := same_value (mv_v a) (mv_v b) && flags_eqb (mv_f a) (mv_f b).
 
-Inductive cprim := CReverse | CFirst | CLast | CFix | CDeshape | CSort | CSortDown | CNeg | CCouple | CRange.
+(** Array::take with one integer amount and no fill (dyadic/structure.rs:491-612, the `&[taking]`
+    arm): the first (or, for a negative amount, the last) |n| rows; more than there are is an
+    error without a fill.  Array::drop with one integer amount (structure.rs:759-822): what
+    take leaves.  Both keep the metadata of the array: the marks stay. *)
+Definition p_prefix (j : nat) (m : mvalue) : mvalue :=
+  match shape_of (mv_v m) with
+  | [] => m
+  | _ :: s => MV (vdata_map (fun A d => firstn (j * shape_prod s) d) (j :: s) (mv_v m)) (mv_f m) end.
+Definition p_suffix (j : nat) (m : mvalue) : mvalue :=
+  match shape_of (mv_v m) with
+  | [] => m
+  | n :: s => MV (vdata_map (fun A d => skipn ((n - j) * shape_prod s) d) (j :: s) (mv_v m)) (mv_f m) end.
+Definition p_take1 (z : Z) (m : mvalue) : res mvalue :=
+  match shape_of (mv_v m) with
+  | [] => Err
+  | n :: _ => let k := Z.to_nat (Z.abs z) in
+              if Nat.ltb n k then Err else Ok (if (0 <=? z)%Z then p_prefix k m else p_suffix k m) end.
+Definition p_drop1 (z : Z) (m : mvalue) : res mvalue :=
+  match shape_of (mv_v m) with
+  | [] => Err
+  | n :: _ => let k := Nat.min (Z.to_nat (Z.abs z)) n in
+              Ok (if (0 <=? z)%Z then p_suffix (n - k) m else p_prefix (n - k) m) end.
+
+Inductive cprim := CReverse | CFirst | CLast | CFix | CDeshape | CSort | CSortDown | CNeg | CCouple | CRange
+                 | CTake (z : Z) | CDrop (z : Z).
 
 Definition prim_c (p : cprim) (args : list mvalue) : res (list mvalue) :=
   match p, args with
@@ -452,6 +490,8 @@ Definition prim_c (p : cprim) (args : list mvalue) : res (list mvalue) :=
   | CRange, [a] => match mv_v a with
                    | VByte [] [n] => Ok [p_range_nat (N.to_nat n)]
                    | _ => Err end
+  | CTake z, [a] => match p_take1 z a with Ok r => Ok [r] | Err => Err end
+  | CDrop z, [a] => match p_drop1 z a with Ok r => Ok [r] | Err => Err end
   | _, _ => Err
   end.
 
